@@ -17,6 +17,7 @@ pub fn respond(line: &str) -> String {
     match head {
         "store" => store::store(rest),
         "storef" => store::storef(rest),
+        "storez" => store::storez(rest),
         "trav" => trav::trav(rest),
         "dec" => dec::dec(rest),
         "parse" => parse::parse(rest),
